@@ -39,6 +39,15 @@ def main():
             if os.path.isfile(p):
                 fp[f] = source_fingerprint(p)
         out[d["id"]] = fp
+    # every module of the package: a harness crash on a tree whose code differs anywhere is a
+    # broken correspondence, on the fingerprinted tree it is a bug of the machinery
+    pkg = {}
+    for dp, dn, fn in os.walk(os.path.join(repo, "alembic")):
+        for f in fn:
+            if f.endswith(".py"):
+                rel = os.path.relpath(os.path.join(dp, f), repo)
+                pkg[rel] = source_fingerprint(os.path.join(dp, f))
+    out["_package"] = pkg
     json.dump(out, open(os.path.join(V, "fingerprints.json"), "w"), indent=1, sort_keys=True)
     print("fingerprints of", sum(len(v) for v in out.values()), "file entries written")
 
